@@ -154,6 +154,13 @@ fn build_add(lhs: &AstNode, rhs: &AstNode) -> Result<Evaluator> {
           value_null!("addition err 3")
         }
       }
+      Value::YearsAndMonthsDuration(lh) => {
+        if let Value::YearsAndMonthsDuration(rh) = rhv {
+          Value::YearsAndMonthsDuration(FeelYearsAndMonthsDuration::new_m(lh.as_months() + rh.as_months()))
+        } else {
+          value_null!("addition err 4")
+        }
+      }
       value @ Value::Null(_) => value,
       _ => value_null!("addition err"),
     }
@@ -1223,6 +1230,7 @@ fn build_neg(lhs: &AstNode) -> Result<Evaluator> {
     match lhv {
       Value::Number(lh) => Value::Number(-lh),
       Value::DaysAndTimeDuration(lh) => Value::DaysAndTimeDuration(-lh),
+      Value::YearsAndMonthsDuration(lh) => Value::YearsAndMonthsDuration(FeelYearsAndMonthsDuration::new_m(-lh.as_months())),
       _ => value_null!("arithmetic negation err 1"),
     }
   }))
@@ -1593,6 +1601,11 @@ fn build_sub(lhs: &AstNode, rhs: &AstNode) -> Result<Evaluator> {
       Value::DaysAndTimeDuration(ref lh) => {
         if let Value::DaysAndTimeDuration(ref rh) = rhv {
           return Value::DaysAndTimeDuration(lh.clone() - rh.clone());
+        }
+      }
+      Value::YearsAndMonthsDuration(ref lh) => {
+        if let Value::YearsAndMonthsDuration(ref rh) = rhv {
+          return Value::YearsAndMonthsDuration(FeelYearsAndMonthsDuration::new_m(lh.as_months() - rh.as_months()));
         }
       }
       _ => {}
